@@ -2,7 +2,8 @@
    line: <id> <nkeys> <n> then per key four AVT tokens (lang data-type order case-order:
          "-" absent, "s:<u16 token>" simple, "p:<u16 token>" with {} parts), then per key n
          values "<hex bits of number(expr)>/<u16 token of string(expr)>".
-   out : <id> <node>:<position>/<last>,...;pure=<node>,...      or   <id> error *)
+   out : <id> <node>:<position>/<last>,...;pure=<node>,...      or   <id> error
+   line: <id> N <hex bits> <hex bits>   out: <id> Lt|Eq|Gt   (num_compare alone) *)
 let avt_of_token (t : string) : avt =
   if t = "-" then AvtAbsent
   else
@@ -16,6 +17,9 @@ let () =
   let ic = if Array.length Sys.argv > 1 then open_in Sys.argv.(1) else stdin in
   iter_lines ic (fun line ->
     match split_ws line with
+    | id :: "N" :: a :: b :: _ ->
+        (* the numeric comparison alone, on two bit patterns *)
+        Printf.printf "%s %s\n" id (match num_compare (z_of_hex a) (z_of_hex b) with Lt -> "Lt" | Eq -> "Eq" | Gt -> "Gt")
     | id :: nk :: n :: rest ->
         let nk = int_of_string nk and n = int_of_string n in
         let rec elems k l = if k = 0 then ([], l) else
